@@ -4,6 +4,7 @@ import struct
 from hypothesis import strategies as st
 
 from vf.evidence import Outcome
+from vf.gen import weighted
 from vf.world import World, Violation, HarnessError, settle, advance
 from vf.boot import loop
 from vf.simnet import SimNet, Server
@@ -92,7 +93,7 @@ def strategy(tier):
                              st.text(min_size=1, max_size=10), st.text(alphabet='sérvice€\U0001F600', min_size=1, max_size=6)),
       'props': st.lists(st.tuples(key, CTX_TEXT).map(list), max_size=4, unique_by=lambda kv: kv[0]),
       'timeout_ms': st.sampled_from([None, 50, 80, 1000, 10000]),
-      'calls': st.lists(st.one_of(call, call, hello), min_size=1, max_size=4),
+      'calls': st.lists(weighted((2, call), (1, hello)), min_size=1, max_size=4),
   }).map(_fix_svc)
 
 
